@@ -251,6 +251,13 @@ theorem cancel_shape : Gen.poolShape_cancel =
     ["if w.conn == nil && w.err == nil => close", "if conn != nil => ReleaseConn"] ∧
     Gen.poolShape_tryDeliver = ["if w.conn != nil || w.err != nil => return", "close"] := by decide
 
+/-- CloseIdleConnections is the model's `closeIdle` followed by `close` events: under the lock it takes a COPY of the
+    idle list and empties `c.conns`; the CloseConn calls run outside the lock on that copy.  (Walking over the list's own
+    backing array instead would let a ReleaseConn that lands in between overwrite an entry not yet visited: the released
+    connection would be closed while staying in the pool and the idle one never closed.) -/
+theorem closeIdleConnections_shape : Gen.poolShape_CloseIdleConnections =
+    ["lock", "scratch = copy of c.conns", "c.conns = c.conns[:0]", "unlock", "range scratch => CloseConn"] := by decide
+
 /-! ### non-vacuity -/
 
 /-- MaxConns = 1 with MaxConnWaitTimeout: a second request waits, gets the released connection, returns with it -/
